@@ -49,16 +49,16 @@ def _one(item):
                 arr = big[::-2, :, 1:-2]
             writers.numpy_to_sgz(p, arr, writers.rate_arg(rate), bs)
             src = cube
-        elif route in ('segy', 'segy-iops', 'segy-ibm', 'segy-reuse', 'segy-strip', 'segy-thorough', 'segy-window', 'segy-window-iops'):
+        elif route in ('segy', 'segy-iops', 'segy-ibm', 'segy-reuse', 'segy-strip', 'segy-thorough', 'segy-window', 'segy-window-iops', 'segy-windowil', 'segy-windowil-iops'):
             sgy = os.path.join(d, f'h{k}.sgy')
             inputs.write_segy(sgy, cube, np.arange(shape[0]) + 1, np.arange(shape[1]) + 1, np.arange(shape[2]) * 4.0,
                               fmt=1 if route == 'segy-ibm' else 5)
             with segyio.open(sgy, strict=False) as f:
                 src = np.stack([np.asarray(f.trace[t]) for t in range(f.tracecount)]).astype(np.float32)
-            if route in ('segy-window', 'segy-window-iops'):        # an ordinal window: the hash is that of the windowed traces
-                a, b, c0, d0 = 1, shape[0] - 1, 2, shape[1]
+            if route.startswith('segy-window'):        # an ordinal window: the hash is that of the windowed traces
+                a, b, c0, d0 = (1, shape[0] - 1, 2, shape[1]) if 'il' not in route else (2, shape[0], 0, shape[1])      # (whole inlines from the third one on: every crossline kept)
                 src = src.reshape(shape)[a:b, c0:d0].reshape(-1, shape[2])
-                writers.segy_to_sgz(sgy, p, writers.rate_arg(rate), bs, reduce_iops=(route == 'segy-window-iops'), window=(a, b, c0, d0))
+                writers.segy_to_sgz(sgy, p, writers.rate_arg(rate), bs, reduce_iops=route.endswith('-iops'), window=(a, b, c0, d0))
             elif route == 'segy-reuse':       # one converter object used for several outputs: the last one is judged
                 from seismic_zfp.conversion import SegyConverter
                 with env.quiet():
@@ -122,7 +122,7 @@ def plan(run):
         P.append(('numpy-F', shape, rate, bs, None))
         P.append(('numpy-view', shape, rate, bs, None))
     # every header-detection mode (the hash does not depend on it)
-    for route in ('segy-window', 'segy-window-iops'):
+    for route in ('segy-window', 'segy-window-iops', 'segy-windowil', 'segy-windowil-iops'):
         P.append((route, (6, 7, 20), 16, None, None))
         P.append((route, (9, 10, 33), 32, (8, 8, 16), None))
     for route in ('segy-strip', 'segy-thorough'):
